@@ -85,4 +85,10 @@ CHECKS = {
         "note": "Trusted: PyElastica's kinematic update as the definition of 'advancing the pose'.",
         "technique": "product lattice of grids x poses with basis enumeration over unit body velocities on the real forcing-grid objects",
     },
+    "C10": {
+        "text": "Exhaustive within bounds: explicit-state breadth-first search over all event histories (full interaction, body-force evaluation, time_step(1/4), time_step(1/8), move body, switch flow field; per body) up to the stated depth on real ImmersedBodyFlowInteraction objects (2-D cylinder, 3-D sphere; one body and two bodies sharing the forcing field; accumulate and reset mode; both precisions), with a reference PI machine stepped in lock-step and invariants (clock, integral, PI law with spacing^(dim-1) scaling, Eulerian forcing accumulate/overwrite, flow velocity and body arrays byte-identical, read-only view) evaluated after every transition.",
+        "design_ref": "DESIGN.md section 5 C10, section 4.3",
+        "note": "Trusted: marker kinematics (C09) and delta kernels (C06/C07) enter the reference through their own references; states are re-entered by snapshot/restore of every array and scalar attribute, validated by replaying histories on freshly constructed objects.",
+        "technique": "explicit-state BFS over operation histories on the real interaction objects with a lock-step reference model",
+    },
 }
